@@ -268,7 +268,7 @@ CLAIMED["C10"] = {
             "program, a syntax error or 'outside the model'. Obligations over regenerated tables: token rule order, regex texts, "
             "t_ignore; grammar size and automaton. (2) LAYOUT IRRELEVANCE (C10_layout_irrelevance, C10_same_denotation): for EVERY "
             "surface program - quoted strings with either quote character and any escapes, integers and decimals in any spelling "
-            "the token rules accept, unquoted identifiers, unquoted text of several tokens (paths, words, numerals inside), lists at any nesting, dictionaries with quoted or unquoted keys, and argument lists, with or "
+            "the token rules accept, unquoted identifiers, unquoted text of several tokens (paths, words, numerals inside), lists at any nesting, dictionaries with quoted or unquoted keys (as an argument's value or as a list element at any depth), unquoted text with colons as an argument's value (C:\\data\\in.csv), and argument lists, with or "
             "without trailing commas, commands in the Result = Command(...) or the EEMS 2.0 COMMAND(...) form - and ANY gaps (blanks, tabs, LF/CR/CRLF line breaks, blank lines, comments, a final comment "
             "without line break) before, between and after its tokens, the text parses to a program of the right version with the same "
             "commands, names and, for every argument, the denotation of what was written; two renderings with the same denotation "
@@ -276,11 +276,11 @@ CLAIMED["C10"] = {
             "(STRING self-delimiting, INT/FLOAT/ID delimited by what may follow), simulation of the LALR automaton over the "
             "regenerated tables per syntactic category incl. the trailing-comma productions, and evaluation of the semantic "
             "actions; all hypotheses are computable booleans. The canonical layout of the serialiser is an instance for every "
-            "program (C15). PARTIAL: NOT proved for the forms outside the surface family - unquoted text with colons, "
-            "dictionaries with list values, mixed lists; these are covered by differential runs only: random programs x layouts, corruptions, token soups, unquoted "
+            "program (C15). PARTIAL: NOT proved for the few forms outside the surface family - unquoted text with colons as the value "
+            "of a tuple pair or inside a list - and for malformed input (mixed lists, corruptions); these are covered by differential runs only: random programs x layouts, corruptions, token soups, mixed lists, unquoted "
             "multi-word values, compared with the real parser node for node, line numbers included. The evidence counts how many "
-            "generated renderings are instances of the theorem (Coq re-assembles each text from its decomposition and evaluates the "
-            "hypotheses).",
+            "accepted renderings are instances of the theorem (Coq re-assembles each text from its decomposition and evaluates the "
+            "hypotheses; 413 of 424 in the quick tier) and says why the others are not.",
     "note": PARSER_NOTE + " Code limitation modelled faithfully and not counted as a violation of well-formed renderings: unquoted "
             "multi-word values lose their blanks and re-print numerals (the renderer quotes such text). The simulation lemmas name "
             "the automaton's states by how they are reached, not by number, so a renumbering of PLY's tables leaves them intact; a "
@@ -293,11 +293,21 @@ CLAIMED["C11"] = {
             "comments, multi-line arguments, line breaks inside quoted strings - every token carries 1 + the number of line feeds "
             "before its position (C11_token_lines, by an invariant over the scanning loop; CRLF counted once; per-rule lemmas that "
             "only newline runs and quoted strings contain line feeds); commands, arguments and values take the line of their first "
-            "token (semantic-action model); parsing is a function of the text alone (no parser state in the model; the code's reset "
-            "is observed by re-using one Parser for the whole stream); every load-time and validation error carries the line of an "
+            "token (semantic-action model); independence of what the parser object parsed before is a theorem about a model of the "
+            "Parser OBJECT (Model/ParserObj.v: the lexer's running line counter, the EEMS 2.0 flag and the pending action errors "
+            "survive between calls; which of the three resets Parser.parse performs is regenerated from its AST, C11_parser_resets): "
+            "for EVERY prior state of the object the result equals that of a fresh parser (C11_history_free), the state left "
+            "behind depends on the last text alone, and each reset is shown necessary by a kernel-computed witness; every step of "
+            "one re-used Parser object (state before, text, result, state after) is compared with that model; every load-time and validation error carries the line of an "
             "actual command / argument node (C11_error_lines, from the blame theorem of C12). Tied by differential runs incl. "
-            "known-location fault injection and the line the command-line tool marks.",
-    "note": PARSER_NOTE + " Bare-CR line ends are outside the theorem's hypothesis. The CLI display is observed, not modelled.",
+            "The command-line tool: for EVERY command file (LF, CRLF or CR line ends) and every token of the source it hands to the parser, "
+            "the context display for the token's line exists and marks the line of the file in which the token starts "
+            "(C11_cli_marks_the_token_line, over a model of the tool's line splitting and context arithmetic). "
+            "known-location fault injection (12 fault kinds incl. list arguments opening on a later line and run-time faults in "
+            "commands that other commands were running) and the line the command-line tool marks.",
+    "note": PARSER_NOTE + " Bare-CR line ends are outside the token-line theorem's hypothesis (the command-line tool itself reads files in text mode, "
+            "which turns them into LF: C11_cli_marks_the_token_line covers CR, CRLF and LF files). The command-line tool's reading of the "
+            "file and its context display are modelled (Model/Cli.v) and compared with its stderr; click's argument handling is not.",
     "technique": "Rocq proof (line invariant of the lexer, error-line theorem) + differential correspondence with history re-use and fault injection",
     "design": "DESIGN.md section 4 C11",
 }
